@@ -28,7 +28,7 @@ func TestPropReceiverProducer(t *testing.T) {
 	rapid.Check(t, func(t *rapid.T) {
 		c := RecvCase{MaxSize: rapid.SampledFrom([]uint64{1, 500, 0}).Draw(t, "max")}
 		for i, n := 0, rapid.IntRange(1, 3).Draw(t, "ntables"); i < n; i++ {
-			c.Tables = append(c.Tables, gen.GenTable(t, gen.TableOpts{MaxCols: 4, MaxRows: evid.Scale(600, 800), Boundary: true, MaxBig: 1}, fmt.Sprintf("t%d", i)))
+			c.Tables = append(c.Tables, gen.GenTable(t, gen.TableOpts{MaxCols: 4, MaxRows: evid.Scale(600, 800), Boundary: true, MaxBig: 1, ForceUnique: rapid.Bool().Draw(t, "unique")}, fmt.Sprintf("t%d", i)))
 		}
 		subRecv.Check(t, c)
 	})
